@@ -30,7 +30,7 @@ func init() {
 			"slices are built by appends in ascending ranges over the raw slices; (R7) no single-result type assertion / explicit panic on " +
 			"the load path; (R8) every label selector of a raw binding is checked with FormatLabelSelector in its Check function. NOT " +
 			"decided: 'any byte string' / 'never panics' inside go-openapi, yaml and k8s validation libraries, completeness of rejection for " +
-			"every single-fault mutation, semantic YAML/JSON equivalence inside sigs.k8s.io/yaml.",
+			"every single-fault mutation, semantic YAML/JSON equivalence inside sigs.k8s.io/yaml. (R9) a converter reports `not declared` only under a nil test; the label-selector validator delegates to the library on every success path (R8).",
 		Run: runC10,
 	})
 }
